@@ -59,7 +59,6 @@ Definition guard_class (k : scase) : N :=
   else if negb (g_uniq (k_value k)) then 3
   else if negb (g_small s) then 4
   else if negb (g_div s (k_value k)) then 5
-  else if negb (g_pattern rc s) then 6
   else if negb (g_rw rc (lk_match (k_matches k)) (lk_fmt (k_formats k)) (md_of (with_mode (k_mode k) st_default)) s) then 7
   else 0.
 
@@ -100,8 +99,7 @@ Definition judge_C12 (k : scase) : N :=
   (* the guards whose failure makes modes differ (a panic reached in one mode only) *)
   let rc := lk_compiles (k_compiles k) in
   let gc : N := if negb (g_excl (k_schema k)) then 2%N
-                else if negb (g_div (k_schema k) (k_value k)) then 5%N
-                else if negb (g_pattern rc (k_schema k)) then 6%N else 0%N in
+                else if negb (g_div (k_schema k) (k_value k)) then 5%N else 0%N in
   if rel then (if same && errs_same then J_OK else J_DRIFT)
   else if same && negb (N.eqb gc 0) then J_KNOWN gc
   else J_VIOL.
